@@ -138,13 +138,88 @@ const (
 	c17ROk = iota
 	c17RErr
 	c17RPanic
-	c17RFatal // a non-null root field whose resolver fails
+	c17RBad // the resolver returns a value whose completion fails (nil for a non-null type, a non-list for a list type)
 )
 
+// deferred values (mirror tbeh)
+const (
+	c17TNow = iota
+	c17TLater
+	c17TLaterFail
+)
+
+// a field instance of the request tree (mirror Ext/ExecOrder.v node); ids are
+// assigned in document order and also give the response key ('a'+id), so that
+// response-key order is document order
+type c17Node struct {
+	id int
+	nn bool // the field's type is non-null: a failure escapes to the enclosing selection
+	rb int
+	th int
+	ch []*c17Node
+}
+
+func (n *c17Node) coq() string {
+	cs := make([]string, len(n.ch))
+	for i, c := range n.ch {
+		cs[i] = c.coq()
+	}
+	return fmt.Sprintf("(Node %d %s %s %s %s)", n.id, coqBool(n.nn), []string{"ROk", "RErr", "RPanic", "RBad"}[n.rb],
+		[]string{"TNow", "TLater", "TLaterFail"}[n.th], coqList(cs))
+}
+
+// the field a node selects: fN an object, gN a non-null object, sN a string,
+// nN a non-null string, lN a list of strings, mN a non-null list of strings
+func (n *c17Node) fieldName() string {
+	k := "s"
+	switch {
+	case len(n.ch) > 0 && n.nn:
+		k = "g"
+	case len(n.ch) > 0:
+		k = "f"
+	case n.rb == c17RBad && n.nn && n.id%2 == 1:
+		k = "m"
+	case n.rb == c17RBad && !n.nn:
+		k = "l"
+	case n.nn:
+		k = "n"
+	}
+	return fmt.Sprintf("%s%d", k, n.id)
+}
+
+func (n *c17Node) write(sb *strings.Builder) {
+	fmt.Fprintf(sb, " %c: %s", 'a'+n.id, n.fieldName())
+	if len(n.ch) > 0 {
+		sb.WriteString(" {")
+		for _, c := range n.ch {
+			c.write(sb)
+		}
+		sb.WriteString(" }")
+	}
+}
+
+func c17Walk(ns []*c17Node, f func(*c17Node)) {
+	for _, n := range ns {
+		f(n)
+		c17Walk(n.ch, f)
+	}
+}
+
+// flat root selection of leaves with the given resolver behaviours
+func c17Flat(rbs ...int) []*c17Node {
+	ns := make([]*c17Node, len(rbs))
+	for i, rb := range rbs {
+		ns[i] = &c17Node{id: i, rb: rb}
+	}
+	return ns
+}
+
 type c17Req struct {
-	class  int
-	m      int   // c17Invalid: m+1 validation errors
-	fields []int // c17Exec: resolver behaviour per field
+	class int
+	m     int // c17Invalid: m+1 validation errors
+	mut   bool
+	roots []*c17Node // c17Exec
+	calls int        // c17Exec: number of resolver calls observed with well-behaved extensions (sizes the hook slots)
 }
 
 func (q c17Req) coq() string {
@@ -158,11 +233,11 @@ func (q c17Req) coq() string {
 	case c17VarErr:
 		return "CVarErr"
 	}
-	fs := make([]string, len(q.fields))
-	for i, f := range q.fields {
-		fs[i] = []string{"ROk", "RErr", "RPanic", "RFatal"}[f]
+	rs := make([]string, len(q.roots))
+	for i, n := range q.roots {
+		rs[i] = n.coq()
 	}
-	return "(CExec " + coqList(fs) + ")"
+	return fmt.Sprintf("(CExec %s %s)", coqBool(q.mut), coqList(rs))
 }
 func (q c17Req) tag() string {
 	switch q.class {
@@ -175,39 +250,40 @@ func (q c17Req) tag() string {
 	case c17VarErr:
 		return "class:variable"
 	}
-	for _, f := range q.fields {
-		if f != c17ROk {
-			return "class:field-errors"
+	t := "class:success"
+	c17Walk(q.roots, func(n *c17Node) {
+		if n.rb != c17ROk || n.th == c17TLaterFail {
+			t = "class:field-errors"
 		}
-	}
-	return "class:success"
+	})
+	return t
 }
 
-// the request text, operation name and variables of a class
+// the request text and operation name of a class
 func (q c17Req) request() (string, string) {
 	switch q.class {
 	case c17Syntax:
-		return "{ f0 ", ""
+		return "{ s0 ", ""
 	case c17Invalid:
 		var sb strings.Builder
-		sb.WriteString("{ f0")
+		sb.WriteString("{ s0")
 		for i := 0; i <= q.m; i++ {
 			fmt.Fprintf(&sb, " nope%d", i)
 		}
 		sb.WriteString(" }")
 		return sb.String(), ""
 	case c17OpErr:
-		return "query A { f0 } query B { f1 }", "C"
+		return "query A { s0 } query B { s1 }", "C"
 	case c17VarErr:
-		return "query($v: Int!) { f0(x: $v) }", ""
+		return "query($v: Int!) { s0(x: $v) }", ""
 	}
 	var sb strings.Builder
+	if q.mut {
+		sb.WriteString("mutation ")
+	}
 	sb.WriteString("{")
-	for i, f := range q.fields {
-		fmt.Fprintf(&sb, " f%d", i)
-		if f == c17RFatal {
-			sb.WriteString("n")
-		}
+	for _, n := range q.roots {
+		n.write(&sb)
 	}
 	sb.WriteString(" }")
 	return sb.String(), ""
@@ -227,9 +303,10 @@ func (l *c17Log) add(s string) {
 }
 
 type c17Ext struct {
-	idx int
-	b   *c17ExtBeh
-	log *c17Log
+	idx   int
+	b     *c17ExtBeh
+	log   *c17Log
+	calls int // ResolveFieldDidStart calls so far
 }
 
 func (x *c17Ext) Name() string { return fmt.Sprintf("ext%d", x.b.name) }
@@ -299,11 +376,14 @@ func (x *c17Ext) resolveBeh(k int) c17SBeh {
 	return c17SBeh{}
 }
 
+// the k-th call is the k-th resolve notification; the finish function reports
+// which field it was told about and whether the resolver failed: 2*id + failed
 func (x *c17Ext) ResolveFieldDidStart(ctx context.Context, info *graphql.ResolveInfo) (context.Context, graphql.ResolveFieldFinishFunc) {
-	k := -1
-	fmt.Sscanf(info.FieldName, "f%d", &k)
-	if k < 0 {
-		k = 9000 // not one of the numbered fields: never generated
+	k := x.calls
+	x.calls++
+	id := 4000 // not one of the numbered fields: never generated
+	if len(info.FieldName) > 1 {
+		fmt.Sscanf(info.FieldName[1:], "%d", &id)
 	}
 	ph := fmt.Sprintf("(PResolve %d)", k)
 	s := x.resolveBeh(k)
@@ -311,9 +391,11 @@ func (x *c17Ext) ResolveFieldDidStart(ctx context.Context, info *graphql.Resolve
 		return ctx, nil
 	}
 	return ctx, func(v interface{}, err error) {
-		n := 0
+		n := 2 * id
 		if err != nil {
-			n = 1
+			n++
+		} else if sv, ok := v.(string); ok && sv != fmt.Sprintf("v%d", id) {
+			n = 8000 // the value of another field
 		}
 		x.finish(ph, n, s)
 	}
@@ -339,36 +421,54 @@ func (x *c17Ext) GetResult(ctx context.Context) interface{} {
 
 // ---- one run ----
 
-const c17MaxFields = 5
+const c17MaxIDs = 12
 
 func c17Schema(q c17Req, exts []graphql.Extension) (graphql.Schema, error) {
-	fields := graphql.Fields{}
-	for i := 0; i < c17MaxFields; i++ {
-		k := i
-		fields[fmt.Sprintf("f%d", i)] = &graphql.Field{
-			Type: graphql.String,
-			Args: graphql.FieldConfigArgument{"x": &graphql.ArgumentConfig{Type: graphql.Int}},
-			Resolve: func(p graphql.ResolveParams) (interface{}, error) {
-				b := c17ROk
-				if k < len(q.fields) {
-					b = q.fields[k]
-				}
-				switch b {
-				case c17RErr:
-					return nil, errors.New("resolver failed")
-				case c17RPanic:
-					panic("resolver panicked")
-				}
-				return "v", nil
-			},
+	byID := map[int]*c17Node{}
+	c17Walk(q.roots, func(n *c17Node) { byID[n.id] = n })
+	deliver := func(id int, value, bad interface{}) (interface{}, error) {
+		n := byID[id]
+		if n == nil {
+			return value, nil
 		}
-		fields[fmt.Sprintf("f%dn", i)] = &graphql.Field{
-			Type:    graphql.NewNonNull(graphql.String),
-			Resolve: func(p graphql.ResolveParams) (interface{}, error) { return nil, errors.New("non-null resolver failed") },
+		switch n.rb {
+		case c17RErr:
+			return nil, fmt.Errorf("resolver %d failed", id)
+		case c17RPanic:
+			panic(fmt.Sprintf("resolver %d panicked", id))
+		case c17RBad:
+			return bad, nil
 		}
+		switch n.th {
+		case c17TLater:
+			return func() (interface{}, error) { return value, nil }, nil
+		case c17TLaterFail:
+			return func() (interface{}, error) { return nil, fmt.Errorf("deferred value %d failed", id) }, nil
+		}
+		return value, nil
 	}
+	var obj *graphql.Object
+	mkFields := func() graphql.Fields {
+		fields := graphql.Fields{}
+		for i := 0; i < c17MaxIDs; i++ {
+			id := i
+			str := func(p graphql.ResolveParams) (interface{}, error) { return deliver(id, fmt.Sprintf("v%d", id), nil) }
+			list := func(p graphql.ResolveParams) (interface{}, error) { return deliver(id, []string{"x"}, 5) }
+			object := func(p graphql.ResolveParams) (interface{}, error) { return deliver(id, map[string]interface{}{}, nil) }
+			fields[fmt.Sprintf("s%d", i)] = &graphql.Field{Type: graphql.String, Resolve: str,
+				Args: graphql.FieldConfigArgument{"x": &graphql.ArgumentConfig{Type: graphql.Int}}}
+			fields[fmt.Sprintf("n%d", i)] = &graphql.Field{Type: graphql.NewNonNull(graphql.String), Resolve: str}
+			fields[fmt.Sprintf("l%d", i)] = &graphql.Field{Type: graphql.NewList(graphql.String), Resolve: list}
+			fields[fmt.Sprintf("m%d", i)] = &graphql.Field{Type: graphql.NewNonNull(graphql.NewList(graphql.String)), Resolve: list}
+			fields[fmt.Sprintf("f%d", i)] = &graphql.Field{Type: obj, Resolve: object}
+			fields[fmt.Sprintf("g%d", i)] = &graphql.Field{Type: graphql.NewNonNull(obj), Resolve: object}
+		}
+		return fields
+	}
+	obj = graphql.NewObject(graphql.ObjectConfig{Name: "T", Fields: graphql.FieldsThunk(mkFields)})
 	return graphql.NewSchema(graphql.SchemaConfig{
-		Query:      graphql.NewObject(graphql.ObjectConfig{Name: "Q", Fields: fields}),
+		Query:      graphql.NewObject(graphql.ObjectConfig{Name: "Q", Fields: graphql.FieldsThunk(mkFields)}),
+		Mutation:   graphql.NewObject(graphql.ObjectConfig{Name: "M", Fields: graphql.FieldsThunk(mkFields)}),
 		Extensions: exts,
 	})
 }
@@ -431,10 +531,35 @@ func c17Emit(e *Emitter, group string, q c17Req, behs []*c17ExtBeh, extraTags ..
 		}
 		names[b.name] = true
 	}
-	for _, f := range q.fields {
-		if f == c17RFatal {
-			extraTags = append(extraTags, "root-non-null-failure")
-			break
+	feat := map[string]bool{}
+	for _, n := range q.roots {
+		if n.nn && n.rb != c17ROk {
+			feat["root-non-null-failure"] = true
+		}
+		c17Walk(n.ch, func(c *c17Node) {
+			feat["nested"] = true
+			if c.nn && c.rb != c17ROk {
+				feat["nested-non-null-failure"] = true
+			}
+		})
+	}
+	c17Walk(q.roots, func(n *c17Node) {
+		if n.th != c17TNow {
+			feat["thunk"] = true
+		}
+		if n.rb == c17RBad {
+			feat["completion-failure"] = true
+		}
+		if n.nn && len(n.ch) > 0 {
+			feat["non-null-parent"] = true
+		}
+	})
+	if q.class == c17Exec && q.mut {
+		feat["mutation"] = true
+	}
+	for _, f := range []string{"root-non-null-failure", "nested", "nested-non-null-failure", "thunk", "mutation", "completion-failure", "non-null-parent"} {
+		if feat[f] {
+			extraTags = append(extraTags, f)
 		}
 	}
 	tags := []string{q.tag(), fmt.Sprintf("exts:%d", len(behs)), fmt.Sprintf("faults:%d", faults)}
@@ -542,17 +667,91 @@ func c17Apply(x *c17ExtBeh, slot, fault int) {
 	}
 }
 
+func c17N(id, rb, th int, ch ...*c17Node) *c17Node { return &c17Node{id: id, rb: rb, th: th, ch: ch} }
+
+// a field of non-null type
+func c17NN(id, rb int, ch ...*c17Node) *c17Node { return &c17Node{id: id, nn: true, rb: rb, ch: ch} }
+
+// the tree a(f0){ b c(f2){ d } } e with a deferred, c deferred, e a failing deferred value
+func c17ThunkTree() []*c17Node {
+	return []*c17Node{
+		c17N(0, c17ROk, c17TLater, c17N(1, c17ROk, c17TNow), c17N(2, c17ROk, c17TLater, c17N(3, c17RErr, c17TNow))),
+		c17N(4, c17ROk, c17TLaterFail),
+		c17N(5, c17ROk, c17TNow, c17N(6, c17ROk, c17TLater)),
+	}
+}
+
 var c17Classes = []c17Req{
 	{class: c17Syntax},
 	{class: c17Invalid, m: 0},
 	{class: c17Invalid, m: 2},
 	{class: c17OpErr},
 	{class: c17VarErr},
-	{class: c17Exec, fields: []int{c17ROk}},
-	{class: c17Exec, fields: []int{c17ROk, c17RErr}},
-	{class: c17Exec, fields: []int{c17RPanic, c17ROk, c17RErr}},
-	{class: c17Exec, fields: []int{c17RErr, c17RPanic}},
-	{class: c17Exec, fields: []int{c17ROk, c17RFatal, c17ROk}},
+	{class: c17Exec, roots: c17Flat(c17ROk)},
+	{class: c17Exec, roots: c17Flat(c17RPanic, c17ROk, c17RErr)},
+	{class: c17Exec, roots: []*c17Node{c17N(0, c17ROk, c17TNow), c17NN(1, c17RErr), c17N(2, c17ROk, c17TNow)}},
+	// values whose completion fails: a non-list for a list, nil for a non-null root field
+	{class: c17Exec, roots: []*c17Node{c17N(0, c17RBad, c17TNow), c17N(1, c17ROk, c17TNow), c17NN(2, c17RBad), c17N(3, c17ROk, c17TNow)}},
+	// a failure that escapes through a non-null parent to the nearest nullable field
+	{class: c17Exec, roots: []*c17Node{c17N(0, c17ROk, c17TNow, c17NN(1, c17ROk, c17NN(2, c17RBad), c17N(3, c17ROk, c17TNow)), c17N(4, c17ROk, c17TNow)), c17N(5, c17ROk, c17TNow)}},
+	// nested selections
+	{class: c17Exec, roots: []*c17Node{c17N(0, c17ROk, c17TNow, c17N(1, c17ROk, c17TNow), c17N(2, c17ROk, c17TNow, c17N(3, c17RErr, c17TNow))), c17N(4, c17ROk, c17TNow)}},
+	// a non-null failure below a nullable object: the rest of that selection is skipped
+	{class: c17Exec, roots: []*c17Node{c17N(0, c17ROk, c17TNow, c17NN(1, c17RPanic), c17N(2, c17ROk, c17TNow)), c17N(3, c17ROk, c17TNow)}},
+	// deferred values: query (breadth first) and mutation (depth first after each root field)
+	{class: c17Exec, roots: c17ThunkTree()},
+	{class: c17Exec, mut: true, roots: c17ThunkTree()},
+}
+
+// random request tree: at most c17MaxIDs field instances, depth <= 3
+func c17RandTree(r *Rng) []*c17Node {
+	next := 0
+	var sel func(depth, max int) []*c17Node
+	sel = func(depth, max int) []*c17Node {
+		var ns []*c17Node
+		k := 1 + r.Intn(max)
+		for i := 0; i < k && next < c17MaxIDs; i++ {
+			n := &c17Node{id: next}
+			next++
+			n.nn = r.Chance(22)
+			switch x := r.Intn(100); {
+			case x < 10:
+				n.rb = c17RErr
+			case x < 18:
+				n.rb = c17RPanic
+			case x < 32:
+				n.rb = c17RBad
+			}
+			if !n.nn { // deferred values of non-null type are outside the model
+				switch x := r.Intn(100); {
+				case x < 25:
+					n.th = c17TLater
+				case x < 35:
+					n.th = c17TLaterFail
+				}
+			}
+			// a nullable object has no value whose completion fails; such a field stays a leaf
+			if (n.rb != c17RBad || n.nn) && depth < 3 && r.Chance(40) && next < c17MaxIDs {
+				n.ch = sel(depth+1, 3)
+			}
+			ns = append(ns, n)
+		}
+		return ns
+	}
+	return sel(1, 4)
+}
+
+// the number of resolver calls of a request with well-behaved extensions
+func c17Probe(q *c17Req) {
+	if q.class != c17Exec {
+		return
+	}
+	out := c17Run(*q, []*c17ExtBeh{c17Well(1, 0)})
+	for _, ev := range out.log {
+		if strings.HasPrefix(ev, "EStart 0 (PResolve") {
+			q.calls++
+		}
+	}
 }
 
 func c17Names(n int, collide bool) []int {
@@ -573,13 +772,18 @@ func c17RandFault(r *Rng, slot int) int {
 
 func genC17(tier string, seed uint64, n int, e *Emitter) {
 	if n == 0 {
-		n = 800
+		n = 600
 		if tier == "thorough" {
 			n = 20000
 		}
 	}
+	classes := make([]c17Req, len(c17Classes))
+	for i, q := range c17Classes {
+		c17Probe(&q)
+		classes[i] = q
+	}
 	// (0) no extension, and well-behaved extensions, every class
-	for _, q := range c17Classes {
+	for _, q := range classes {
 		for nx := 0; nx <= 3; nx++ {
 			for _, collide := range []bool{false, true} {
 				if collide && nx < 2 {
@@ -587,25 +791,27 @@ func genC17(tier string, seed uint64, n int, e *Emitter) {
 				}
 				behs := []*c17ExtBeh{}
 				for _, nm := range c17Names(nx, collide) {
-					behs = append(behs, c17Well(nm, len(q.fields)))
+					behs = append(behs, c17Well(nm, q.calls))
 				}
 				c17Emit(e, "no-fault", q, behs)
 			}
 		}
 	}
 	// (1) the single-fault space for one and two extensions, enumerated
-	for _, q := range c17Classes {
+	for _, q := range classes {
 		for nx := 1; nx <= 2; nx++ {
 			for _, collide := range []bool{false, true} {
-				if collide && nx < 2 {
+				// equal names only matter for Result.Extensions and the finish-function tables:
+				// enumerated on the small classes, sampled on the trees
+				if collide && (nx < 2 || q.calls > 1) {
 					continue
 				}
 				for who := 0; who < nx; who++ {
-					for slot := 0; slot < c17Slots(len(q.fields)); slot++ {
+					for slot := 0; slot < c17Slots(q.calls); slot++ {
 						for _, fault := range c17Faults(slot) {
 							behs := []*c17ExtBeh{}
 							for _, nm := range c17Names(nx, collide) {
-								behs = append(behs, c17Well(nm, len(q.fields)))
+								behs = append(behs, c17Well(nm, q.calls))
 							}
 							c17Apply(behs[who], slot, fault)
 							c17Emit(e, "single-fault", q, behs, "slot:"+c17SlotName(slot), fmt.Sprintf("fault:%d", fault))
@@ -629,15 +835,8 @@ func genC17(tier string, seed uint64, n int, e *Emitter) {
 		case 3:
 			q = c17Req{class: c17VarErr}
 		default:
-			nf := 1 + r.Intn(c17MaxFields)
-			q = c17Req{class: c17Exec, fields: make([]int, nf)}
-			for k := range q.fields {
-				if r.Chance(40) {
-					q.fields[k] = 1 + r.Intn(2)
-				} else if r.Chance(12) {
-					q.fields[k] = c17RFatal
-				}
-			}
+			q = c17Req{class: c17Exec, mut: r.Chance(30), roots: c17RandTree(r)}
+			c17Probe(&q)
 		}
 		nx := r.Intn(4)
 		collide := r.Chance(30)
@@ -647,7 +846,7 @@ func genC17(tier string, seed uint64, n int, e *Emitter) {
 			if collide {
 				nm = 1 + r.Intn(2)
 			}
-			behs = append(behs, c17Well(nm, len(q.fields)))
+			behs = append(behs, c17Well(nm, q.calls))
 		}
 		group := "pair-fault"
 		if nx > 0 {
@@ -659,7 +858,7 @@ func genC17(tier string, seed uint64, n int, e *Emitter) {
 			for f := 0; f < nfaults; f++ {
 				who := r.Intn(nx)
 				// bias toward the slots the request reaches
-				slot := r.Intn(c17Slots(len(q.fields)))
+				slot := r.Intn(c17Slots(q.calls))
 				c17Apply(behs[who], slot, c17RandFault(r, slot))
 			}
 		}
